@@ -551,3 +551,143 @@ def ordering_ordinal(prog, fn_key, e):
     if e[0] == "const" and "variant" in e[1]:
         return ("const", e[1]["variant"])
     return ("expr", canon(e))
+
+
+def expand_allowed(prog, allowed, module_prefix):
+    """Close a who-may-write allow-list under private helpers: a function of `module_prefix` all of whose call sites lie in
+    already allowed functions inherits the permission (extracting a helper is not a violation)."""
+    allowed = set(allowed)
+    changed = True
+    while changed:
+        changed = False
+        for k, fn in prog.fns.items():
+            if k in allowed or fn.kind == "Closure" or not k.startswith(module_prefix):
+                continue
+            cs = call_sites(prog, k)
+            if cs and all(enclosing_fn(c["fn"]) in allowed for c in cs):
+                allowed.add(k)
+                changed = True
+    return allowed
+
+
+def body_fn_with(prog, root_key, callee_key, module_prefix):
+    """The function that actually contains the call to `callee_key`: root_key itself, or a private helper (same module) it
+    delegates to.  Lets rules about the *body* of an anchored function survive an extracted helper."""
+    seen = set()
+    dq = [root_key]
+    while dq:
+        k = dq.pop(0)
+        if k in seen or k not in prog.fns:
+            continue
+        seen.add(k)
+        inst = prog.ident(k)
+        keys = [prog.callee_key(c) for (b, t, c) in prog.sites(inst)]
+        if callee_key in keys:
+            return k
+        for kk in keys:
+            if kk.startswith(module_prefix) and prog.fns.get(kk) is not None and prog.fns[kk].kind != "Closure":
+                dq.append(kk)
+    return root_key
+
+
+# ---------------------------------------------------------------------- expression normalisation across function boundaries
+
+def _map_expr(e, f):
+    """Rebuild expression tree applying f bottom-up."""
+    if not isinstance(e, tuple):
+        return e
+    out = []
+    for x in e:
+        if isinstance(x, tuple):
+            out.append(_map_expr(x, f))
+        elif isinstance(x, list):
+            out.append([_map_expr(y, f) if isinstance(y, tuple) else y for y in x])
+        else:
+            out.append(x)
+    return f(tuple(out))
+
+
+def _simple_fn(prog, key):
+    fn = prog.fns.get(key)
+    if fn is None or fn.kind == "Closure":
+        return None
+    b = fn.body
+    if b.n > 8:
+        return None
+    for i in range(b.n):
+        if b.blocks[i]["cleanup"]:
+            continue
+        if b.term(i)["k"] == "switch":
+            return None
+    return fn
+
+
+def closure_capture_expr(prog, closure_key, idx):
+    """Expression (in the enclosing function) of the value captured as upvar #idx of a closure."""
+    fn = prog.fns.get(closure_key)
+    parent = fn.j.get("parent_fn") if fn else None
+    if not parent or parent not in prog.fns:
+        return None, None
+    pb = prog.fns[parent].body
+    for blk in pb.blocks:
+        for s in blk["stmts"]:
+            if s["k"] == "=" and s["rv"]["k"] == "agg" and s["rv"].get("closure") == closure_key:
+                ops = s["rv"]["ops"]
+                if idx < len(ops):
+                    return parent, strip(pb.expr_of_operand(ops[idx]))
+    return parent, None
+
+
+NO_INLINE = ("rt::object::", "rt::atomic::index", "rt::atomic::range", "rt::execution", "rt::synchronize", "rt::branch",
+             "rt::thread::Set::", "rt::vv::", "rt::path::Path::", "rt::location::")     # anchors the rules talk about: never inlined
+
+
+def deep(prog, fn_key, e, depth=0):
+    """Normalise an expression of fn_key: captured variables are replaced by the captured expression of the enclosing function,
+    calls to small straight-line local helpers are inlined.  Makes expression rules robust against `extract helper`,
+    `inline helper` and `hoist out of the closure` refactorings."""
+    if depth > 4 or not isinstance(e, tuple):
+        return e
+
+    def f(x):
+        if x[0] == "upvar":
+            parent, pe = closure_capture_expr(prog, fn_key, x[1])
+            if pe is not None:
+                return deep(prog, parent, pe, depth + 1)
+            return x
+        if x[0] == "call" and x[1] in prog.fns and not x[1].startswith(NO_INLINE):
+            cf = _simple_fn(prog, x[1])
+            if cf is not None:
+                r = cf.body.expr_of_local(0)
+                args = x[2]
+
+                def sub(y):
+                    if y[0] == "param" and 1 <= y[1] <= len(args):
+                        return args[y[1] - 1]
+                    return y
+                return deep(prog, x[1], _map_expr(r, sub), depth + 1) if depth < 3 else _map_expr(r, sub)
+        return x
+    return _map_expr(e, f)
+
+
+def value_sources(body, e, depth=0):
+    """All expressions a value may come from, expanding phi (multiply assigned) temporaries into their definitions."""
+    e = strip(e)
+    if e[0] == "phi" and depth < 4:
+        out = []
+        for d in body.defs().get(e[1], []):
+            if d[0] == "stmt" and d[3]["k"] == "=":
+                out += value_sources(body, body.expr_of_rvalue(d[3]["rv"]), depth + 1)
+            elif d[0] == "call":
+                out.append(("call", callee_path(d[2]), [body.expr_of_operand(a) for a in d[2]["args"]], d[1]))
+        return out
+    return [e]
+
+
+def first_seen_recorders(prog):
+    """Methods of rt::atomic::FirstSeen that record an observation (write the per-thread array), whatever they are called."""
+    out = set()
+    for w in prog.writers().get(("rt::atomic::FirstSeen", "0"), []):
+        if w["kind"] in ("assign", "borrow_mut") and prog.fns[w["fn"]].j.get("impl_adt") == "rt::atomic::FirstSeen":
+            out.add(enclosing_fn(w["fn"]))
+    return out
